@@ -66,7 +66,7 @@
       goes up by one per tick (tick_election_waits) and after exactly
       max 1 (randomized_election_timeout - election_elapsed) ticks - at most
       max 1 randomized_election_timeout (election_timeout_bound) - the counter is cleared and
-      hup runs (tick_election_fires).  hup_campaigns: hup on a non-leader whose window scan
+      hup runs (tick_election_fires).  hup_campaigns: hup on a promotable (fix 8deb47c) non-leader whose window scan
       (C09 hup_scan, the window of fix a8252b4) finds no unapplied membership change ends
       as PreCandidate (pre_vote), as Candidate of term+1 that voted
       for itself, or as Leader of term+1 (own vote = quorum); never as Follower (the own
